@@ -437,7 +437,9 @@ func (i *Interpreter) ProcessMiss() error {
 		var determined *value.Backend
 		i.ctx.BackendRequest, determined, err = i.createDirectorRequest(i.ctx, i.ctx.Backend.Director)
 		if err == nil {
-			i.ctx.Backend = determined
+			// Work on a copy, "set req.backend" assigns in place and must not modify the declared backend
+			picked := *determined
+			i.ctx.Backend = &picked
 		}
 	} else {
 		i.ctx.BackendRequest, err = i.createBackendRequest(i.ctx, i.ctx.Backend)
@@ -550,7 +552,9 @@ func (i *Interpreter) ProcessPass() error {
 		var determined *value.Backend
 		i.ctx.BackendRequest, determined, err = i.createDirectorRequest(i.ctx, i.ctx.Backend.Director)
 		if err == nil {
-			i.ctx.Backend = determined
+			// Work on a copy, "set req.backend" assigns in place and must not modify the declared backend
+			picked := *determined
+			i.ctx.Backend = &picked
 		}
 	} else {
 		i.ctx.BackendRequest, err = i.createBackendRequest(i.ctx, i.ctx.Backend)
